@@ -66,6 +66,8 @@ def declare(reg):
             "pending_notifications": "list[str]",
             "client": "ref:ClientProxy",
             "examine": "bool",
+            "select_while_selected_count": "int",
+            "server": "opt[ref:IMAPUserServer]",
             "name": "str",
             "mbox": "opt[ref:Mailbox]",
             "state": "enum:ClientState",
@@ -89,6 +91,7 @@ def declare(reg):
             "user_name": "str",
             "input": "str",
             "password": "str",
+            "mailbox_name": "str",
         },
         path="asimap/parse.py",
     )
@@ -160,7 +163,7 @@ def declare(reg):
             "_msg_size": "opt[int]",
             "_sequences": "opt[list[str]]",
             "_msg": "opt[opaque:EmailMessage]",
-            "_internal_date": "opt[opaque:datetime]",
+            "_internal_date": "opt[opaque:adatetime]",
         },
         path="asimap/search.py",
     )
